@@ -134,6 +134,15 @@ def parse_out(s):
     return s, []
 
 
+def close_nan(a, b, rtol):
+    """nan positions must coincide; the remaining entries agree to rtol of the largest magnitude"""
+    if len(a) != len(b) or any((x != x) != (y != y) for x, y in zip(a, b)):
+        return False
+    fa = [x for x in a if x == x]
+    fb = [y for y in b if y == y]
+    return close_vec(fa, fb, rtol=rtol, atol=1e-300)
+
+
 def make_cmp(sp):
     exact = bool(sp.get('integer')) and sp.get('what') in ('eta', 'etdata')
     rtol = 1e-9 if sp.get('what') == 'fir' else 1e-12
@@ -148,7 +157,7 @@ def make_cmp(sp):
             return False
         if exact:
             return all((x == y) or (x != x and y != y) for x, y in zip(a[1], b[1])) and len(a[1]) == len(b[1])
-        return close_vec(a[1], b[1], rtol=rtol, atol=1e-300)
+        return close_nan(a[1], b[1], rtol)
 
     def cmp(impl, model):
         if model == 'singular':
@@ -236,8 +245,6 @@ def gen_placement(rng, N, L, off, codes, separated, per_type_min=1):
 
 def gen_series(rng, tier, what, big=False):
     L = rng.randint(2, 8) if not big else rng.randint(9, 32)
-    if rng.random() < 0.05 and what != 'fir':
-        L = 1
     codes = rng.sample(CODES, rng.randint(1, 3))
     if rng.random() < 0.4:
         codes = list(dict.fromkeys(abs(c) for c in codes))
@@ -366,11 +373,11 @@ def fixed_specs():
 
 
 def gen_specs(rng, tier):
-    n = 36 if tier == 'quick' else 600
+    n = 120 if tier == 'quick' else 1500
     specs = list(fixed_specs())
     for i in range(n):
         for what in ('fir', 'eta', 'ets', 'etdata'):
-            sp = gen_series(rng, tier, what, big=(tier == 'thorough' and i % 10 == 0) or (tier == 'quick' and i % 18 == 17))
+            sp = gen_series(rng, tier, what, big=(tier == 'thorough' and i % 10 == 0) or (tier == 'quick' and i % 30 == 29))
             specs.append(sp)
             if what != 'etdata' and i % 3 == 0:
                 specs.append(add_noise(rng, sp))
@@ -601,6 +608,8 @@ def oracle(rng, tier, seed, focus, cases=None):
                 fails.append(f)
     mf, mn = metamorphic(rng, cases or [])
     fails += mf
+    for f in fails:
+        f.replay['key'] = f.key
     # smallest failing input first (it is the one recorded per key)
     fails.sort(key=lambda f: len(f.replay['spec'].get('data', [])) + len(f.replay['spec'].get('ev', [])))
     skipped = sum(1 for c in (cases or []) if c.meta and c.meta.get('rank_deficient'))
@@ -608,6 +617,17 @@ def oracle(rng, tier, seed, focus, cases=None):
 
 
 def replay(d):
+    """re-run one recorded failing input on the current tree.  A failure under a DIFFERENT key that is a
+    recorded known finding (e.g. the negative-code sign on a design that also has negative codes) is not
+    a reproduction of the recorded failure."""
+    import common
+    f = _replay(d)
+    if f is not None and f.key != d.get('key') and common.match_known(f.key, common.load_findings(PID)):
+        return None
+    return f
+
+
+def _replay(d):
     sp = dict(d['spec'])
     sp.pop('rank_deficient', None)
     if 'lin' in d:
